@@ -1,6 +1,6 @@
 """JavaScript parser - produces an AST from tokens."""
 
-from typing import List, Optional, Callable
+from typing import Dict, List, Optional, Callable
 from .lexer import Lexer
 from .tokens import Token, TokenType
 from .errors import JSSyntaxError
@@ -94,6 +94,8 @@ class Parser:
         self.lexer = Lexer(source)
         self.current: Token = self.lexer.next_token()
         self.previous: Optional[Token] = None
+        # Results of the arrow function look-ahead, by the position behind the '('
+        self._arrow_params: Dict[int, bool] = {}
 
     def _error(self, message: str) -> JSSyntaxError:
         """Create a syntax error at current position."""
@@ -701,20 +703,33 @@ class Parser:
         saved_column = self.lexer.column
         saved_current = self.current
 
+        # One scan answers the question for every '(' nested in this one as well
+        # (asking each of them again made deeply nested parentheses quadratic)
+        if saved_pos in self._arrow_params:
+            return self._arrow_params[saved_pos]
+
         is_arrow = False
         try:
             self._advance()  # (
             # Skip to matching )
-            paren_depth = 1
-            while paren_depth > 0 and not self._is_at_end():
+            open_parens = [saved_pos]
+            while open_parens and not self._is_at_end():
                 if self._check(TokenType.LPAREN):
-                    paren_depth += 1
+                    open_parens.append(self.lexer.pos)
+                    self._advance()
                 elif self._check(TokenType.RPAREN):
-                    paren_depth -= 1
-                self._advance()
+                    self._advance()
+                    self._arrow_params[open_parens.pop()] = self._check(
+                        TokenType.ARROW
+                    )
+                else:
+                    self._advance()
+            # (what is still open at the end of the source is not closed at all)
+            for pos in open_parens:
+                self._arrow_params[pos] = False
 
             # Check for =>
-            is_arrow = self._check(TokenType.ARROW)
+            is_arrow = self._arrow_params[saved_pos]
         except Exception:
             pass
 
